@@ -495,6 +495,12 @@ class MockIncludeDirective:
         source = self.renderer.document["source"]
         rsource = self.renderer.reporter.source
         line_func = getattr(self.renderer.reporter, "get_source_and_line", None)
+        # the relative-images / relative-docs settings of an enclosing include
+        relative_settings = {
+            key: self.renderer.md_env[key]
+            for key in ("relative-images", "relative-docs")
+            if key in self.renderer.md_env
+        }
         try:
             self.renderer.document["source"] = str(path)
             self.renderer.reporter.source = str(path)
@@ -519,6 +525,7 @@ class MockIncludeDirective:
             self.renderer.reporter.source = rsource
             self.renderer.md_env.pop("relative-images", None)
             self.renderer.md_env.pop("relative-docs", None)
+            self.renderer.md_env.update(relative_settings)
             if line_func is not None:
                 self.renderer.reporter.get_source_and_line = line_func
             else:
